@@ -215,6 +215,50 @@ ENSURES(map->t.off == offsetof(struct cstl_map_node, n) &&
         map->t.t.off == offsetof(struct cstl_map_node, n) + offsetof(struct cstl_rbtree_node, n))
 ;
 
+
+/* ---- clear: every entry's key and value go to the caller's callback exactly once (iterator with
+ *      the stored pointers and no node handle), and every node the map allocated is released, also
+ *      when no callback is given.  The tree's clear is a specification stub that hands each held
+ *      element (here: the two tracked entries; an arbitrary further population is not modelled) to
+ *      the element callback exactly once and empties the tree (C15 for the tree: bounded). -------- */
+size_t vf_uclr_calls; _Bool vf_uclr_bad; int vf_uclr_seen_s, vf_uclr_seen_o;
+void vf_uclr(void * it, void * p)
+{
+    cstl_map_iterator_t * const i = it;
+    vf_uclr_calls++;
+    if (p != vf_user_priv || i->_ != NULL) {
+        vf_uclr_bad = 1;
+    }
+    if (i->key == vf_ks && i->val == vf_vs && vf_uclr_seen_s == 0 && vf_w_present) { vf_uclr_seen_s = 1; }
+    else if (i->key == vf_ko && i->val == vf_vo && vf_uclr_seen_o == 0 && vf_w_present_o) { vf_uclr_seen_o = 1; }
+    else { vf_uclr_bad = 1; }
+}
+cstl_xtor_func_t * const vf_anchor_uclr = vf_uclr;
+cstl_xtor_func_t * const vf_anchor_nclr = __cstl_map_node_clear;
+void cstl_bintree_clear(struct cstl_bintree * const bt, cstl_xtor_func_t * const clr, void * const priv)
+{
+    __CPROVER_assert(bt == &vf_map->t.t, "cstl_bintree_clear precondition: the map's tree");
+    __CPROVER_assert(clr == __cstl_map_node_clear, "cstl_bintree_clear precondition: the map's own element callback (a NULL callback would leak every node)");
+    if (vf_present) { clr(vf_node, priv); vf_present = 0; }
+    if (vf_present_o) { clr(vf_node_o, priv); vf_present_o = 0; }
+    bt->root = NULL;
+    bt->size = 0;
+}
+void cstl_map_clear(cstl_map_t * const map, cstl_xtor_func_t * const clr, void * const priv)
+REQUIRES(M_PRE(map) && (clr == NULL || clr == vf_uclr) && priv == vf_user_priv)
+REQUIRES(vf_present ==> (vf_node->key == vf_ks && vf_node->val == vf_vs))
+REQUIRES(vf_present_o ==> (vf_node_o->key == vf_ko && vf_node_o->val == vf_vo))
+REQUIRES(vf_uclr_calls == 0 && !vf_uclr_bad && vf_uclr_seen_s == 0 && vf_uclr_seen_o == 0)
+ASSIGNS(map->t.t.size, map->t.t.root, vf_present, vf_present_o, vf_uclr_calls, vf_uclr_bad, vf_uclr_seen_s, vf_uclr_seen_o;
+        vf_present: __CPROVER_object_whole(vf_node); vf_present_o: __CPROVER_object_whole(vf_node_o))
+FREES(vf_node, vf_node_o)
+ENSURES(map->t.t.size == 0 && map->t.t.root == NULL && !vf_present && !vf_present_o)
+ENSURES(!vf_uclr_bad && vf_uclr_calls == (clr != NULL ? (size_t)vf_w_present + (size_t)vf_w_present_o : 0))
+ENSURES(clr != NULL ==> (vf_uclr_seen_s == vf_w_present && vf_uclr_seen_o == vf_w_present_o))
+ENSURES(vf_w_present ==> __CPROVER_was_freed(vf_node))
+ENSURES(vf_w_present_o ==> __CPROVER_was_freed(vf_node_o))
+;
+
 /* ------------------------------------------------------------------ harnesses */
 static cstl_map_t vf_M;
 static int vf_KS, vf_KO, vf_KQ, vf_VS, vf_VO, vf_VQ, vf_P;
@@ -298,6 +342,13 @@ void h_erase_iterator(void)
     vf_I.key = nondet_cptr();
     vf_I.val = nondet_ptr();
     cstl_map_erase_iterator(&vf_M, &vf_I);
+    VF_END();
+}
+void h_clear(void)
+{
+    vf_setup();
+    /* the two tracked entries are distinct keys here */
+    cstl_map_clear(&vf_M, nondet_bool() ? vf_uclr : NULL, vf_user_priv);
     VF_END();
 }
 void h_node_cmp(void)
